@@ -5,6 +5,7 @@ package props
 import (
 	"bytes"
 	"fmt"
+	"sort"
 	"testing"
 
 	"github.com/Tnze/go-mc/level"
@@ -44,6 +45,9 @@ type C13Case struct {
 	// UsedDst (network): the receiving chunk has already received another chunk (same number of
 	// sections, as many distinct states per section, other states), and is edited after the read
 	UsedDst bool `json:"used_dst,omitempty"`
+	// EditAfterSave (save): after ChunkToSave the original chunk keeps being edited (states already in
+	// each section's palette, so no representation change); the saved form must not follow
+	EditAfterSave bool `json:"edit_after_save,omitempty"`
 }
 
 var airStates = func() map[int]bool {
@@ -150,6 +154,15 @@ func c13Build(c C13Case) (*level.Chunk, *c13Model, *pbt.Violation) {
 	ch.Status = level.ChunkStatus(c.Status)
 	return ch, m, nil
 }
+
+var airIDs = func() []int {
+	var ids []int
+	for id := range airStates {
+		ids = append(ids, id)
+	}
+	sort.Ints(ids)
+	return ids
+}()
 
 func c13CompareSections(got *level.Chunk, m *c13Model, what string, checkCount bool, want *level.Chunk) *pbt.Violation {
 	if len(got.Sections) != len(m.blocks) {
@@ -296,6 +309,16 @@ func c13Check(c C13Case) *pbt.Violation {
 		if err != nil {
 			return pbt.V("c13.save.tosave", "converting a chunk to the save form", "ChunkToSave: %v", err)
 		}
+		if c.EditAfterSave {
+			for s := range ch.Sections {
+				for j := 0; j < 6; j++ {
+					i, from := (s*211+j*983)%4096, (s*389+j*1471+7)%4096
+					ch.Sections[s].SetBlock(i, level.BlocksState(m.blocks[s][from]))
+					bi, bfrom := (s*5+j*11)%64, (s*7+j*13+3)%64
+					ch.Sections[s].Biomes.Set(bi, level.BiomesState(m.biomes[s][bfrom]))
+				}
+			}
+		}
 		var back *level.Chunk
 		if pv, stack := pbt.Try(func() { back, err = level.ChunkFromSave(&sv) }); pv != nil {
 			return pbt.V(pbt.PanicKey("c13.fromsave", stack), "ChunkFromSave", "panicked: %v\n%s", pv, stack)
@@ -366,6 +389,7 @@ func genC13(t *rapid.T) C13Case {
 	c := C13Case{Secs: rapid.IntRange(1, pbt.Pick(6, 24)).Draw(t, "secs")}
 	c.Mode = rapid.SampledFrom([]string{"network", "network", "save", "save", "counter"}).Draw(t, "mode")
 	c.UsedDst = c.Mode == "network" && rapid.Bool().Draw(t, "used_dst")
+	c.EditAfterSave = c.Mode == "save" && rapid.Bool().Draw(t, "edit_after_save")
 	for s := 0; s < c.Secs; s++ {
 		c.Pools = append(c.Pools, genPool(t, "blocks"))
 		c.Light = append(c.Light, [2]int{rapid.IntRange(0, 3).Draw(t, "sky"), rapid.IntRange(0, 3).Draw(t, "blocklight")})
@@ -412,6 +436,9 @@ var c13Prop = pbt.Register(pbt.Prop[C13Case]{
 		labels := []string{"mode_" + c.Mode, fmt.Sprintf("secs_%d", c.Secs)}
 		if c.UsedDst {
 			labels = append(labels, "network_into_chunk_that_received_another_chunk")
+		}
+		if c.EditAfterSave {
+			labels = append(labels, "original_edited_between_save_and_load")
 		}
 		classes := map[int]bool{}
 		fills := 0
